@@ -4,7 +4,7 @@
    check ties to the code on every run. *)
 From Coq Require Import List ZArith Bool Reals Lra Lia.
 From Coquelicot Require Import Coquelicot.
-From SC Require Import Base.Num C09.Model C09.ProofsSearch C09.ProofsGrad C09.ProofsStable C09.ProofsPredict C09.ProofsExamples.
+From SC Require Import Base.Num C09.Model C09.ProofsSearch C09.ProofsGrad C09.ProofsGradMulti C09.ProofsStable C09.ProofsPredict C09.ProofsExamples.
 Import ListNotations.
 Local Open Scope R_scope.
 
@@ -109,14 +109,24 @@ Example C09_binary_df_is_gradient_sat :
   length [1/2; -1/4; 3] = 3%nat /\ List.Forall (fun r : list R => length r = 2%nat) [[1; 2]; [-3; 1/2]; [0; 4]] /\ (2 <= 2)%nat.
 Proof. repeat split; repeat constructor. Qed.
 
-(* The multinomial counterpart is NOT proved (it is searched numerically at random points and compared with
-   the model in binary64): the full intended statement, with the shift-free softmax of C09_stable_forms. *)
-Definition C09_multiclass_df_is_gradient_full_statement : Prop :=
+(* The multinomial counterpart: for k classes, weights laid out class by class (p weights then the bias of the
+   class), labels < k, every coordinate q = j*(p+1) + l: the partial derivative of `MultiClassObjectiveFunction::f`
+   is entry q of `MultiClassObjectiveFunction::df` -- sum over rows of (softmax_j - [y = j]) * x_l (or * 1 for a
+   bias), plus alpha*w_q for the weights only.  Over R with the shift-free softmax (C09_stable_softmax shows
+   the coded shifted softmax equals it). *)
+Theorem C09_multiclass_df_is_gradient :
   forall p k (x : list (list R)) (y : list nat) alpha (w : list R) q,
   length w = (k * S p)%nat -> List.Forall (fun r => length r = p) x -> List.Forall (fun c => (c < k)%nat) y ->
   (q < k * S p)%nat ->
   is_derive (fun t => multi_f_gen ROps softmax_def p k x y alpha (upd w q t)) (nth q w 0)
             (multi_df_entry ROps softmax_def p k x y alpha w q).
+Proof. exact multiclass_df_is_gradient. Qed.
+
+Example C09_multiclass_df_is_gradient_sat :
+  length [1/2; -1/4; 3; 0; 1; 2; -1; -1; 0] = (3 * 3)%nat /\
+  List.Forall (fun r : list R => length r = 2%nat) [[1; 2]; [-3; 1/2]; [0; 4]] /\
+  List.Forall (fun c => (c < 3)%nat) [0%nat; 2%nat; 1%nat] /\ (5 < 3 * 3)%nat.
+Proof. repeat split; repeat constructor. Qed.
 
 (* The overflow-safe scalar forms equal their definitions over R: sigmoid exactly on [-40,40] and within e^-40
    everywhere; ln_1pe exactly up to 15 and, above, the shortcut `x` is below ln(1+e^x) by at most e^-15;
